@@ -8,5 +8,7 @@ CONSTANTS
   Routes = {"kwargs", "argv"}
   Layouts = {"flat"}
   Slim = TRUE
+  HistKinds = {}
+  MaxLookups = 0
 INVARIANT DropDefaultSettingsFollowsDocs
 CHECK_DEADLOCK FALSE
